@@ -48,9 +48,14 @@ class GuardClock:
 
   def __init__(self):
     self.aborted = set()
+    self.abort_all = False     # after a hang: every thread of the dead run that touches the clock is unwound
+    self.immune = set()
 
   def _guard(self):
-    if self.aborted and threading.get_ident() in self.aborted:
+    if self.abort_all:
+      if threading.get_ident() not in self.immune:
+        raise Abort()
+    elif self.aborted and threading.get_ident() in self.aborted:
       raise Abort()
 
   def time(self):
@@ -114,8 +119,15 @@ def run_guarded(fn, timeout):
   th.start()
   th.join(timeout)
   if th.is_alive():
+    # unwind the run: first its own thread, then every helper thread it left spinning (stage loops,
+    # wait_until_alive loops ...) - otherwise non-daemon helpers keep the process alive for ever
     CLOCK.aborted.add(th.ident)
+    th.join(1.0)
+    CLOCK.immune = {threading.get_ident()}
+    CLOCK.abort_all = True
     th.join(2.0)
+    _real_time.sleep(0.3)
+    CLOCK.abort_all = False
     CLOCK.aborted.discard(th.ident)
     return True, None, None
   return False, box.get('value'), box.get('exc')
